@@ -12,6 +12,8 @@ def sh(cmd, **kw):
 
 
 def demo(path):
+    if os.environ.get('SKIP_DEMO'):
+        return 'skipped'
     if not os.path.isfile(path):
         return None
     r = sh(f'cd /repo && PYTHONPATH=/repo timeout 900 /venv/bin/python {path}')
